@@ -30,6 +30,10 @@
 (*                    in every order and at most one TYPE_CHECKING import  *)
 (*                    closing an import cycle: bases resolved only in the  *)
 (*                    second pass, early lookups before they are known     *)
+(*          "zope"    member placements x every set of classes declared      *)
+(*                    @implementer of an interface documenting the member  *)
+(*          "split"   5 classes in two modules importing each other: the   *)
+(*                    last class is post-processed before some of its bases*)
 (*          "graph"   every base graph over MaxN classes incl. cycles (one  *)
 (*                    class per module, plain `import`): conformance of the*)
 (*                    cycle fallback; Python rejects these programs        *)
@@ -96,9 +100,11 @@ RefFind(c) == FirstDefining(C3(c))
 RefSources(c) == <<c>> \o SelectSeq(Tail(C3(c)), Defines)
 \* whose docstring documents c.f: the first definition along the order that has a docstring at all;
 \* an empty docstring documents nothing (0)
-HasDoc(x) == member[x] \in {"doc", "empty"}
+IFACE == 99       \* the member as declared (with a docstring) by the interface I; not a class of the hierarchy
+DocState(x) == IF x = IFACE THEN "doc" ELSE member[x]
+HasDoc(x) == DocState(x) \in {"doc", "empty"}
 RefDocOwner(c) == LET s == SelectSeq(RefSources(c), HasDoc) IN
-    IF Len(s) = 0 THEN 0 ELSE IF member[s[1]] = "doc" THEN s[1] ELSE 0
+    IF Len(s) = 0 THEN 0 ELSE IF DocState(s[1]) = "doc" THEN s[1] ELSE 0
 
 \* the laws a method resolution order obeys (evaluated on the reference here, on the REAL mro by the harness)
 HeadIsSelf(c, L) == Len(L) > 0 /\ L[1] = c
@@ -154,9 +160,12 @@ InitMro(c) == LET r == Dfs(c, <<>>, fin) IN
                     ELSE [mro |-> m, warn |-> "none", fin |-> r.fin]
 \* ---- Class.find (model.py:783-792), Inheritable.docsources (:825-831), get_docstring (:1519-1538)
 PdFind(c) == FirstDefining(mro[c])
-PdSources(c) == <<c>> \o SelectSeq(Tail(mro[c]), Defines)
+\* extensions/zopeinterface.py:41-76: ZopeInterfaceFunction.docsources = the regular sources, THEN what the interfaces
+\* implemented by the class or by any of its bases (allImplementedInterfaces walks baseobjects) declare under the name
+HasIface(c) == \E x \in {c} \cup Anc(c) : x \in lay.impl
+PdSources(c) == <<c>> \o SelectSeq(Tail(mro[c]), Defines) \o (IF HasIface(c) THEN <<IFACE>> ELSE <<>>)
 PdDocOwner(c) == LET s == SelectSeq(PdSources(c), HasDoc) IN
-    IF Len(s) = 0 THEN 0 ELSE IF member[s[1]] = "doc" THEN s[1] ELSE 0      \* "" stops the search, (None, source)
+    IF Len(s) = 0 THEN 0 ELSE IF DocState(s[1]) = "doc" THEN s[1] ELSE 0      \* "" stops the search, (None, source)
 
 \* ---- a dotted lookup `C.f` made WHILE the modules are analysed (an alias statement `a = C.f`, a base `class X(C.f)`
 \*      placed right after the class statement): expandName -> Class.find -> Class.mro() with _mro still None
@@ -206,7 +215,7 @@ RECURSIVE ProcAll(_, _, _)
 ProcAll(order, st, bk) == IF Len(order) = 0 THEN st ELSE ProcAll(Tail(order), Proc(Head(order), st, bk), bk)
 CreatedSeq(order, bk) == ProcAll(order, [started |-> {}, created |-> <<>>], bk).created
 BornOf(order, bk) == [c \in 1..Len(order) |-> PosIn(CreatedSeq(order, bk), c)]
-NoLay == [order |-> <<>>, back |-> <<>>]
+NoLay == [order |-> <<>>, back |-> <<>>, impl |-> {}, split |-> 0]
 BackPairs(m) == {<<c, x>> : c \in 1..m, x \in 1..m} \ {<<c, c>> : c \in 1..m}
 BackChoices(m) == IF LateBacks = "two"
                     THEN {<<p, q>> : p \in BackPairs(m), q \in BackPairs(m)} \ {<<p, q>> \in BackPairs(m) \X BackPairs(m) :
@@ -215,18 +224,18 @@ BackChoices(m) == IF LateBacks = "two"
 
 \* ===================================================================== behaviours
 Ident(m) == [i \in 1..m |-> i]
-InitBuild == /\ Source \in {"enum", "members", "late"} /\ cid = 0 /\ n = 0 /\ lay = NoLay
+InitBuild == /\ Source \in {"enum", "members", "late", "zope", "split"} /\ cid = 0 /\ n = 0 /\ lay = NoLay
              /\ bases = <<>> /\ born = <<>> /\ member = <<>> /\ phase = "build"
 InitGraph == /\ Source = "graph" /\ cid = 0 /\ n = MaxN
              /\ bases \in [1..MaxN -> PermSeqs(1..MaxN)]
              /\ \A c \in 1..MaxN : c \notin Range(bases[c])
-             /\ lay = [order |-> Ident(MaxN), back |-> <<>>]
+             /\ lay = [NoLay EXCEPT !.order = Ident(MaxN)]
              /\ born = BornOf(lay.order, lay.back) /\ member = [i \in 1..MaxN |-> "absent"] /\ phase = "post"
 InitFile == /\ Source = "file" /\ cid \in 1..Len(FileCases)
             /\ n = Len(FileCases[cid].bases)
             /\ bases = FileCases[cid].bases /\ member = FileCases[cid].member
             \* born = <<>> in the file: one class per module, modules added in the order 1..n
-            /\ lay = IF Len(FileCases[cid].born) = 0 THEN [order |-> Ident(n), back |-> <<>>] ELSE NoLay
+            /\ lay = IF Len(FileCases[cid].born) = 0 THEN [NoLay EXCEPT !.order = Ident(n)] ELSE NoLay
             /\ born = IF Len(FileCases[cid].born) = 0 THEN BornOf(Ident(n), <<>>) ELSE FileCases[cid].born
             /\ phase = "post"
 Init == /\ (InitBuild \/ InitGraph \/ InitFile)
@@ -239,14 +248,27 @@ AddClass == /\ phase = "build" /\ n < MaxN
             /\ mro' = Append(mro, <<>>) /\ warn' = Append(warn, "none")
             /\ UNCHANGED <<cid, phase, fin, k, lay>>
 Built == /\ phase = "build" /\ n = MaxN
-         /\ IF Source \in {"members", "late"} THEN member' \in [1..n -> DocStates] ELSE UNCHANGED member
+         /\ IF Source \in {"members", "late", "zope"} THEN member' \in [1..n -> DocStates] ELSE UNCHANGED member
          \* "late": one class per module, the modules added in any order, up to two TYPE_CHECKING imports (which may
          \* close import cycles: the only way a base is still unknown when its subclass is analysed)
          /\ IF Source = "late"
               THEN /\ \E o \in {p \in [1..n -> 1..n] : Inj(p)}, b \in BackChoices(n) :
                         /\ (LateOrders = "two" => (o = Ident(n) \/ o = [i \in 1..n |-> n + 1 - i]))
-                        /\ lay' = [order |-> o, back |-> b]
+                        /\ lay' = [NoLay EXCEPT !.order = o, !.back = b]
                    /\ born' = BornOf(lay'.order, lay'.back)
+              ELSE IF Source = "zope"
+              \* any set of classes is declared @implementer(I), I an interface that documents the member
+              THEN /\ \E S \in SUBSET (1..n) : lay' = [NoLay EXCEPT !.impl = S]
+                   /\ UNCHANGED born
+              ELSE IF Source = "split"
+              \* two modules importing each other: A = classes 1..sp ; `import B` ; classes sp+1..n-1 and
+              \* B = `import A` ; class n.  A is added first, so B is analysed at A's import statement (B's own import of A
+              \* finds A being analysed): creation order 1..sp, n, sp+1..n-1.  Class n is post-processed BEFORE its bases
+              \* beyond sp, which are resolved only in the second pass, while the classes up to sp are finalised already.
+              \* Legal Python when B is imported first.  (sp = n-1 is the plain order: Source "enum".)
+              THEN /\ \E sp \in 0..(n - 2) : /\ \E b \in Range(bases[n]) : b > sp
+                                              /\ lay' = [NoLay EXCEPT !.split = sp]
+                   /\ born' = [c \in 1..n |-> IF c <= lay'.split THEN c ELSE IF c = n THEN lay'.split + 1 ELSE c + 1]
               ELSE UNCHANGED <<born, lay>>
          /\ phase' = "post"
          /\ UNCHANGED <<cid, n, bases, fin, k, mro, warn>>
@@ -276,8 +298,13 @@ RefLaws == Done => \A c \in Classes : Consistent(c) =>
               /\ HeadIsSelf(c, C3(c)) /\ EachAncestorOnce(c, C3(c)) /\ LocalPrecedence(c, C3(c)) /\ Monotonic(c, C3(c))
 \* members are attributed / documented as attribute lookup along Python's order yields
 FindIsLookup == Done => \A c \in Classes : Consistent(c) => PdFind(c) = RefFind(c)
-SourcesAreOverridden == Done => \A c \in Classes : (Consistent(c) /\ Defines(c)) => PdSources(c) = RefSources(c)
-DocIsInherited == Done => \A c \in Classes : (Consistent(c) /\ Defines(c)) => PdDocOwner(c) = RefDocOwner(c)
+\* ... anything that is not on the MRO (an interface declaration) can only come after every definition along it, and can
+\* only document the member when nothing along the MRO does
+SourcesAreOverridden == Done => \A c \in Classes : (Consistent(c) /\ Defines(c)) =>
+    /\ SelectSeq(PdSources(c), LAMBDA x : x # IFACE) = RefSources(c)
+    /\ \A i \in 1..Len(PdSources(c)) : PdSources(c)[i] = IFACE => i = Len(PdSources(c))
+DocIsInherited == Done => \A c \in Classes : (Consistent(c) /\ Defines(c)) =>
+    (PdDocOwner(c) = RefDocOwner(c) \/ (RefDocOwner(c) = 0 /\ PdDocOwner(c) = IFACE))
 
 \* a lookup through the class gives the same definition whenever it is made
 EarlyIsLookupAt(c) == PdEarlyFind(c) = RefFind(c) /\ PdEarlyBase(c) = RefFind(c)
